@@ -173,6 +173,13 @@ func (c *Ctx) c20Model(cls string, p c20pts) {
 		return
 	}
 	c.Note("model." + cls)
+	// the super-triangle construction itself (exact on integer input: coordinates are half-integers)
+	st := triangulation.SuperTriangle(append(c20pts{}, p...))
+	var ss []string
+	for _, v := range st {
+		ss = append(ss, fmt.Sprint(int64(v.X()*2)), fmt.Sprint(int64(v.Y()*2)))
+	}
+	c.Emit("c20.super", cls+" "+c20PtsStr(p), strings.Join(ss, " "))
 	c.Emit("c20.bw", cls+" "+c20PtsStr(p), c20Canon(tris))
 	var ts strings.Builder
 	fmt.Fprintf(&ts, "%d", len(tris))
